@@ -282,3 +282,116 @@ Proof.
   rewrite upd_upd, nth_error_upd_eq by exact Lo. norm.
   rewrite !upd_upd. unfold set_wr, set_subs. cbn. rewrite (splice_is_remove _ _ _ Hnth ND). reflexivity.
 Qed.
+
+Definition close_one (chs : list chan) (ci : cid) : list chan :=
+  match nth_error chs ci with
+  | Some chn => upd ci (Chan (ch_buf chn) (ch_cap chn) true) chs
+  | None => chs
+  end.
+Definition close_all (l : list cid) (chs : list chan) : list chan := fold_left close_one l chs.
+
+Definition is_open (chs : list chan) (ci : cid) : Prop :=
+  exists chn, nth_error chs ci = Some chn /\ ch_closed chn = false.
+
+Lemma is_open_close_other chs ci cj : ci <> cj -> is_open chs cj -> is_open (close_one chs ci) cj.
+Proof.
+  intros N (chn & H & O). unfold close_one. destruct (nth_error chs ci); [|exists chn; auto].
+  exists chn. rewrite nth_error_upd_neq by exact N. auto.
+Qed.
+
+(* the closing loop of UnsubAll *)
+Lemma unsuball_loop_solo rest : forall c t th o,
+  c_panic c = None -> nth_error (c_threads c) t = Some th ->
+  th_pc th = PUnsubAllLoop o rest -> NoDup rest -> (forall ci, In ci rest -> is_open (c_chans c) ci) ->
+  run c (repeat (t, Plain) (length rest)) =
+  Config (c_objs c) (close_all rest (c_chans c)) (c_wg c)
+         (upd t (Thread (th_prog th) (PUnsubAllLoop o []) (th_rets th)) (c_threads c))
+         (rev (map (EClose t o) rest) ++ c_trace c) None.
+Proof.
+  induction rest as [|ci rest IH]; intros c t th o Hp Ht Hpc ND Hop.
+  - cbn. destruct c, th; cbn in *; subst. rewrite upd_same; auto.
+  - assert (Lt : t < length (c_threads c)) by (eapply nth_error_some_lt; eauto).
+    inversion ND as [|? ? Hni ND']; subst.
+    destruct (Hop ci (or_introl eq_refl)) as (chn & Hc & Ho).
+    cbn [length repeat run]. unfold_step. rewrite Hp, Ht, Hpc. unfold close_chan. norm. rewrite Hc, Ho. norm. rewrite Hp.
+    erewrite IH; norm.
+    + rewrite upd_upd. cbn [map rev]. rewrite <- app_assoc. cbn [app].
+      unfold close_all at 2. cbn [fold_left]. unfold close_one at 2. rewrite Hc. reflexivity.
+    + exact Hp.
+    + apply nth_error_upd_eq; exact Lt.
+    + reflexivity.
+    + exact ND'.
+    + intros cj Hj. assert (N : ci <> cj) by (intros ->; contradiction).
+      generalize (is_open_close_other (c_chans c) ci cj N (Hop cj (or_intror Hj))).
+      unfold close_one. rewrite Hc. auto.
+Qed.
+
+(* UnsubAll with every subscribed channel open: Lock; one close per channel;
+   subs = nil + Unlock. Returns nil; exactly the subscribed channels are
+   closed (buffers kept), the subscription list is empty, one EClose per
+   channel is logged in order, nothing else changes. *)
+Lemma unsuball_solo c t th o ob rest :
+  c_panic c = None -> nth_error (c_threads c) t = Some th ->
+  th_pc th = PIdle -> th_prog th = CUnsubAll o :: rest ->
+  nth_error (c_objs c) o = Some ob -> lock_free t ob = true ->
+  NoDup (o_subs ob) -> (forall ci, In ci (o_subs ob) -> is_open (c_chans c) ci) ->
+  run c (repeat (t, Plain) (length (o_subs ob) + 2)) =
+  Config (upd o (set_wr (set_subs ob []) None) (c_objs c))
+         (close_all (o_subs ob) (c_chans c)) (c_wg c)
+         (upd t (Thread rest PIdle (th_rets th ++ [RNil])) (c_threads c))
+         (rev (map (EClose t o) (o_subs ob)) ++ c_trace c) None.
+Proof.
+  intros Hp Ht Hpc Hpr Ho Hl ND Hop.
+  assert (Lt : t < length (c_threads c)) by (eapply nth_error_some_lt; eauto).
+  assert (Lo : o < length (c_objs c)) by (eapply nth_error_some_lt; eauto).
+  replace (length (o_subs ob) + 2) with (1 + (length (o_subs ob) + 1)) by lia.
+  rewrite <- !repeat_app, !run_app. cbn [repeat run].
+  unfold_step. rewrite Hp, Ht, Hpc, Hpr. cbn [step_call]. rewrite Ho, Hl. norm.
+  erewrite unsuball_loop_solo; norm.
+  - unfold_step. rewrite upd_upd, nth_error_upd_eq by exact Lt. norm.
+    rewrite nth_error_upd_eq by exact Lo. norm. rewrite !upd_upd.
+    unfold set_wr, set_subs. cbn. reflexivity.
+  - exact Hp.
+  - apply nth_error_upd_eq; exact Lt.
+  - reflexivity.
+  - exact ND.
+  - exact Hop.
+Qed.
+
+(* WithOnly(sub): RLock + loop; RUnlock + return. A new PubSub is appended
+   that lists exactly [sub] if it is subscribed (nothing for nil or an unknown
+   channel), with the same timeout configuration and no default buffer; the
+   parent, the channels and the trace are unchanged. *)
+Lemma withonly_solo c t th o ob sub rest ch1 ch2 :
+  c_panic c = None -> nth_error (c_threads c) t = Some th ->
+  th_pc th = PIdle -> th_prog th = CWithOnly o sub :: rest ->
+  nth_error (c_objs c) o = Some ob -> rlock_free ob = true -> NoDup (o_subs ob) ->
+  run c [(t, ch1); (t, ch2)] =
+  Config (c_objs c ++
+            [PsObj (match sub with
+                    | Some s => if in_dec Nat.eq_dec s (o_subs ob) then [s] else []
+                    | None => []
+                    end) [] None None (o_timeout ob) (o_cb ob) 0%Z])
+         (c_chans c) (c_wg c)
+         (upd t (Thread rest PIdle (th_rets th ++ [RView (length (c_objs c))])) (c_threads c))
+         (c_trace c) None.
+Proof.
+  intros Hp Ht Hpc Hpr Ho Hl ND.
+  assert (Lt : t < length (c_threads c)) by (eapply nth_error_some_lt; eauto).
+  assert (Lo : o < length (c_objs c)) by (eapply nth_error_some_lt; eauto).
+  cbn [run]. unfold_step. rewrite Hp, Ht, Hpc, Hpr. cbn [step_call]. rewrite Ho, Hl. norm.
+  unfold_step. rewrite Hp, nth_error_upd_eq by exact Lt. norm.
+  rewrite nth_error_upd_eq by exact Lo. norm.
+  rewrite !upd_upd, upd_length, withonly_loop_spec by exact ND. unfold set_rd. cbn [o_subs o_rd o_wr o_ww o_timeout o_cb o_defbuf remove_one].
+  rewrite Nat.eqb_refl. rewrite (upd_same o) by (destruct ob; exact Ho). reflexivity.
+Qed.
+
+(* ------------------------------------------------------------------ *)
+(* Experiments                                                          *)
+(* ------------------------------------------------------------------ *)
+Lemma step_chans_test c t ch c' : step c t ch = Some c' -> length (c_chans c) <= length (c_chans c').
+Proof.
+  intro H. unfold step in H. step_inv H.
+  all: try (unfold step_call, step_pub_start, step_sub_start, announce, step_recv, close_chan in *).
+  all: step_inv H.
+  Show.
